@@ -10,6 +10,8 @@
 -/
 import JoinModel.Lemmas.Nest
 import JoinModel.Lemmas.GenFacts
+import JoinModel.Lemmas.ParseWF
+import JoinModel.Lemmas.ParseFuel
 import JoinModel.SpecTables
 namespace JoinModel.Props.C15
 open JoinModel
@@ -239,6 +241,178 @@ theorem no_internal_bug (p : Input) (kind : Kind) (hwf : WellFormed p) :
     simp only [hs]
     exact ⟨_, rfl⟩
 
+/-! ### The parser half: everything the parser accepts is well-formed
+
+  `Lemmas/ParseWF.lean` shows, for every oracle (whatever syn answers) and every token list, what the parser model can
+  return: members of table shape and a `>>>`/`<<<` balance — reset at each `~` — that never drops below zero.  Here that is
+  connected with `WellFormed` (two facts about the *extracted* tables, checked row by row), which gives totality of the
+  whole pipeline. -/
+
+/-- table fact: a wrapper member's constructor is one of the ten wrapper-capable operators -/
+theorem wrapperCtor_in_spec (c : Comb) :
+    (match wrapperCtorOf c with | some ctor => SpecTables.wrappers.contains ctor | none => true) = true := by
+  cases c <;> rfl
+
+/-- table fact: an operator other than `<<<` builds a constructor other than UNWRAP, with the documented operand count -/
+theorem arity_in_spec (c : Comb) (hc : c ≠ .unwrap) :
+    (match arityOf c with
+      | some ar => ar.ctor != .unwrap && (SpecTables.arity ar.ctor).count == ar.count &&
+          (!ar.allowEmpty || (SpecTables.arity ar.ctor).allowEmpty)
+      | none => true) = true := by
+  cases c <;> first | rfl | exact absurd rfl hc
+
+theorem shape_arityOK (m : Member) (h : MemberShape m) : arityOK m = true := by
+  unfold MemberShape at h
+  unfold arityOK
+  cases hmv : m.mv with
+  | unwrap => rfl
+  | wrap =>
+    rw [hmv] at h
+    obtain ⟨⟨c, hc⟩, hl⟩ := h
+    have := wrapperCtor_in_spec c
+    rw [hc] at this
+    simp only at this
+    simp only [hl, this, beq_self_eq_true, Bool.and_self]
+  | none =>
+    rw [hmv] at h
+    obtain ⟨c, ar, har, hcu, hctor, hl⟩ := h
+    have := arity_in_spec c hcu
+    rw [har] at this
+    simp only [Bool.and_eq_true, Bool.or_eq_true, Bool.not_eq_true', beq_iff_eq] at this
+    obtain ⟨⟨h1, h2⟩, h3⟩ := this
+    simp only [hctor, h1, Bool.true_and, Bool.or_eq_true, Bool.and_eq_true, beq_iff_eq, List.isEmpty_iff]
+    rcases hl with hl | ⟨ha, hl⟩
+    · exact Or.inl (by rw [hl, h2])
+    · refine Or.inr ⟨?_, hl⟩
+      rcases h3 with h3 | h3
+      · rw [ha] at h3; cases h3
+      · exact h3
+
+/-- the builder's running balance, reset at each `~`, is the per-step balance of the generator's step split -/
+theorem chk_balanced : ∀ (ms : List Member) (w : Int), 0 ≤ w → chk w ms = true →
+    ∀ g gs, splitSteps ms = g :: gs → balanced g w.toNat = true ∧ ∀ g' ∈ gs, balanced g' 0 = true := by
+  intro ms
+  induction ms with
+  | nil =>
+    intro w _ _ g gs h
+    simp only [splitSteps, List.cons.injEq] at h
+    obtain ⟨rfl, rfl⟩ := h
+    exact ⟨rfl, fun _ h => by cases h⟩
+  | cons m ms ih =>
+    intro w hw hc g gs h
+    simp only [chk, Bool.and_eq_true, decide_eq_true_eq] at hc
+    obtain ⟨hw1, hc⟩ := hc
+    cases hs : splitSteps ms with
+    | nil => exact absurd hs (splitSteps_ne_nil ms)
+    | cons g0 gs0 =>
+      obtain ⟨ihg, ihgs⟩ := ih _ hw1 hc g0 gs0 hs
+      simp only [splitSteps, hs] at h
+      cases hd : m.deferred with
+      | true =>
+        simp only [hd, if_true, List.cons.injEq] at h
+        obtain ⟨rfl, rfl⟩ := h
+        simp only [hd, if_true, Int.zero_add] at hw1 ihg
+        refine ⟨rfl, ?_⟩
+        intro g' hg'
+        rcases List.mem_cons.mp hg' with rfl | hg'
+        · cases hmv : m.mv with
+          | wrap => simp only [balanced, hmv]; simpa [hmv, mvDelta] using ihg
+          | unwrap => simp [hmv, mvDelta] at hw1
+          | none => simp only [balanced, hmv]; simpa [hmv, mvDelta] using ihg
+        · exact ihgs g' hg'
+      | false =>
+        simp only [hd, Bool.false_eq_true, if_false, List.cons.injEq] at h
+        obtain ⟨rfl, rfl⟩ := h
+        simp only [hd, Bool.false_eq_true, if_false] at hw1 ihg
+        refine ⟨?_, ihgs⟩
+        cases hmv : m.mv with
+        | wrap =>
+          simp only [balanced, hmv]
+          simp only [hmv, mvDelta] at ihg
+          have : (w + 1).toNat = w.toNat + 1 := by omega
+          rwa [this] at ihg
+        | unwrap =>
+          simp only [balanced, hmv, Bool.and_eq_true, decide_eq_true_eq]
+          simp only [hmv, mvDelta] at ihg hw1
+          have : (w + -1).toNat = w.toNat - 1 := by omega
+          rw [this] at ihg
+          exact ⟨by omega, ihg⟩
+        | none =>
+          simp only [balanced, hmv]
+          simpa [hmv, mvDelta] using ihg
+
+/-- **The parser only accepts well-formed programs** — for every oracle, i.e. whatever syn answers. -/
+theorem parse_wellformed (o : Oracle) (toks : Toks) (p : Input) (h : parseMacroInput o toks = .ok p) : WellFormed p := by
+  obtain ⟨_, hb⟩ := parseMacroInput_ok o toks p h
+  intro br hbr g hg
+  obtain ⟨hsh, hchk⟩ := hb br hbr
+  cases hs : splitSteps br.members with
+  | nil => exact absurd hs (splitSteps_ne_nil _)
+  | cons g0 gs0 =>
+    obtain ⟨h0, hrest⟩ := chk_balanced br.members 0 (Int.le_refl 0) hchk g0 gs0 hs
+    rw [hs] at hg
+    refine ⟨?_, ?_⟩
+    · rcases List.mem_cons.mp hg with rfl | hg
+      · exact h0
+      · exact hrest g hg
+    · intro m hm
+      refine shape_arityOK m (hsh m ?_)
+      have : ∀ (ms : List Member) (g : List Member), g ∈ splitSteps ms → ∀ m ∈ g, m ∈ ms := by
+        intro ms
+        induction ms with
+        | nil => intro g hg m hm; simp [splitSteps] at hg; subst hg; cases hm
+        | cons x xs ih =>
+          intro g hg m hm
+          cases hxs : splitSteps xs with
+          | nil => exact absurd hxs (splitSteps_ne_nil xs)
+          | cons y ys =>
+            simp only [splitSteps, hxs] at hg
+            split at hg
+            · rcases List.mem_cons.mp hg with rfl | hg
+              · cases hm
+              · rcases List.mem_cons.mp hg with rfl | hg
+                · rcases List.mem_cons.mp hm with rfl | hm
+                  · exact List.mem_cons_self
+                  · exact List.mem_cons_of_mem _ (ih y (by rw [hxs]; exact List.mem_cons_self) m hm)
+                · exact List.mem_cons_of_mem _ (ih g (by rw [hxs]; exact List.mem_cons_of_mem _ hg) m hm)
+            · rcases List.mem_cons.mp hg with rfl | hg
+              · rcases List.mem_cons.mp hm with rfl | hm
+                · exact List.mem_cons_self
+                · exact List.mem_cons_of_mem _ (ih y (by rw [hxs]; exact List.mem_cons_self) m hm)
+              · exact List.mem_cons_of_mem _ (ih g (by rw [hxs]; exact List.mem_cons_of_mem _ hg) m hm)
+      exact this br.members g (by rw [hs]; exact hg) m hm
+
+/-- **Expansion is total.**  For every token list, every behaviour of syn (oracle) and every macro kind, the pipeline
+    parser → generator ends in one of three ways: the parser rejects the input with an error, the generator rejects the
+    configuration (wrong handler kind, `futures_crate_path` on a non-async macro), or code is produced.  An internal
+    error (an `expect`/`unwrap`/`panic!`/`unreachable!` site of the generator) is not among the outcomes. -/
+theorem expansion_total (o : Oracle) (toks : Toks) (kind : Kind) :
+    (∃ e, parseMacroInput o toks = .error e) ∨
+    ∃ p, parseMacroInput o toks = .ok p ∧
+      ((∃ code, gen p kind = .ok code) ∨ ∃ e, gen p kind = .error e ∧ e.isReject = true) := by
+  cases h : parseMacroInput o toks with
+  | error e => exact Or.inl ⟨e, rfl⟩
+  | ok p => exact Or.inr ⟨p, rfl, no_internal_bug p kind (parse_wellformed o toks p h)⟩
+
+/-- **Expansion terminates.**  Every loop of the parser model carries fuel, and running out of it is the outcome
+    `.syn "fuel"`; that outcome never occurs: each iteration of the scan of `parse_until`, of the chain builder and of the
+    branch/handler loop consumes at least one token tree.  The one fact about syn this needs — the empty token stream is
+    not an expression — is checked against syn itself on every run (harness mode `synfacts`).  (The generator is
+    structurally recursive over the parsed program.) -/
+theorem expansion_terminates (o : Oracle) (hempty : o.validExpr [] = false) (toks : Toks) :
+    parseMacroInput o toks ≠ .error (.syn "fuel") :=
+  parse_never_out_of_fuel o hempty toks
+
+/-- totality and termination together: the three outcomes of `expansion_total`, and the parser's error is never the
+    model's own out-of-fuel artefact -/
+theorem expansion_total_terminating (o : Oracle) (hempty : o.validExpr [] = false) (toks : Toks) (kind : Kind) :
+    (∃ e, parseMacroInput o toks = .error e ∧ e ≠ .syn "fuel") ∨
+    ∃ p, parseMacroInput o toks = .ok p ∧
+      ((∃ code, gen p kind = .ok code) ∨ ∃ e, gen p kind = .error e ∧ e.isReject = true) := by
+  rcases expansion_total o toks kind with ⟨e, he⟩ | h
+  · exact Or.inl ⟨e, he, fun hf => expansion_terminates o hempty toks (by rw [he, hf])⟩
+  · exact Or.inr h
+
 /-! Non-vacuity.  The steps of `init |> >>> ..b() <<< ~=> c` are balanced and parser-shaped; the second step of
     `a => >>> |> f ~<<< |> g` (the input behind the defect fixed in 225b285) is not balanced: the parser must reject
     it, and now does (K1 family `invalid`). -/
@@ -250,5 +424,18 @@ example : (splitSteps [mk .initial false .none 1, mk .map false .wrap 1, mk .dot
 
 example : (splitSteps [mk .initial false .none 1, mk .andThen false .wrap 1, mk .map false .none 1, mk .unwrap true .unwrap 0,
       mk .map false .none 1]).map (fun g => balanced g 0) = [true, false] := by decide
+
+/-- the premise of `expansion_terminates` is satisfiable, and the three outcomes all occur: `a |> f` is accepted and
+    generates code, `<<<` alone is rejected by the parser (an oracle that accepts single tokens as expressions) -/
+example :
+    let o : Oracle := { validExpr := fun ts => ts.length == 1, validType := fun _ => false, isBlock := fun _ => false,
+                        letSplit := fun _ => .notLet, reprintExpr := id, reprintType := id, exprPrefix := fun _ => none,
+                        pathPrefix := fun _ => none, litBool := fun _ => none }
+    o.validExpr [] = false ∧
+    ((parseMacroInput o [.ident "a", .punct '|' true, .punct '>' false, .ident "f"]).toOption.map
+        (fun p => (gen p ⟨false, false, false⟩).toOption.isSome)) = some true ∧
+    (parseMacroInput o [.ident "a", .punct '<' true, .punct '<' true, .punct '<' false]).toOption.isSome = false := by
+  intro o
+  exact ⟨rfl, rfl, rfl⟩
 
 end JoinModel.Props.C15
